@@ -64,7 +64,7 @@ func (sc scenario) opLine(trace bool) string {
 	if trace {
 		op = "HT"
 	}
-	fmt.Fprintf(&sb, "%s %s 1 %s %s - %d", op, b01(sc.coreOK), hxs("main/main.go"), hxs("core"), len(sc.plugins))
+	fmt.Fprintf(&sb, "%s %s 1 %s %s - %d", op, b01(sc.coreOK), hxs("root/root.go"), hxs("core"), len(sc.plugins))
 	// completion order: identity
 	s := sb.String()
 	s = strings.Replace(s, " - ", " "+orderText(len(sc.plugins))+" ", 1)
@@ -178,7 +178,7 @@ func runScenario(sc scenario, idx int) runResult {
 	if !sc.coreOK {
 		prog = genFailProgram
 	}
-	os.WriteFile(filepath.Join(dir, "src", "main.thrift"), []byte(prog), 0o644)
+	os.WriteFile(filepath.Join(dir, "src", "root.thrift"), []byte(prog), 0o644)
 	args := []string{"--out", filepath.Join(dir, "out"), "--pkg-prefix", "x"}
 	for _, p := range sc.plugins {
 		fs := fakeScript{exitAtStart: p.exitAtStart, exitCode: p.exitCode, steps: map[string]fakeStep{
@@ -186,7 +186,7 @@ func runScenario(sc scenario, idx int) runResult {
 		os.WriteFile(filepath.Join(scripts, p.name+".script"), []byte(fs.text()), 0o644)
 		args = append(args, "-p", p.name)
 	}
-	args = append(args, filepath.Join(dir, "src", "main.thrift"))
+	args = append(args, filepath.Join(dir, "src", "root.thrift"))
 	tmo := 20 * time.Second
 	if sc.hang {
 		tmo = 1500 * time.Millisecond
@@ -579,7 +579,7 @@ func appendOnce(xs []string, s string) []string {
 // conflictPossible: two plugins (or a plugin and the core) may produce the same path; then
 // which plugin is named depends on the completion order and is not compared.
 func conflictPossible(sc scenario) bool {
-	seen := map[string]bool{"main/main.go": true}
+	seen := map[string]bool{"root/root.go": true}
 	for _, p := range sc.plugins {
 		for _, f := range p.genFiles {
 			if seen[f.k] {
